@@ -186,6 +186,43 @@ def r2_per_execution(ctx, mod, sym, rule='R2'):
                       "sys.stdout is still the capture buffer while pedal records")
 
 
+def r2b_echoing_buffer(ctx, mod, sym):
+    ctx.rule('R2', "PrintingStringIO.write (the buffer used when real output is allowed) executed abstractly with a "
+                   "console that accepts the text and with one whose encoding rejects it: whenever write() returns, the "
+                   "text recorded (handed to StringIO.write) is the text the student wrote, character for character")
+    from .. import symexec
+    mm = ctx.repo.module('pedal.sandbox.mocked')
+    fn = mm.func('PrintingStringIO.write')
+    ctx.analysed_function(mm, fn)
+    for text, console_accepts in (('plain text\n', True), ('caf\u00e9 cr\u00e8me\n', True), ('caf\u00e9 cr\u00e8me\n', False),
+                                  ('\u2713 done', False)):
+        rec = symexec.Recorder()
+        console = Obj('real-console', encoding='ascii')
+
+        def console_write(t, *a, **k):
+            rec.events.append(('console.write', (t,), {}))
+            if not console_accepts and any(ord(ch) > 127 for ch in t):
+                raise Raised('UnicodeEncodeError', "'ascii' codec can't encode character")
+            return len(t)
+        symexec.method(console, 'write', console_write)
+        symexec.method(console, 'flush', lambda *a, **k: None)
+        sup = Obj('super')
+        symexec.method(sup, 'write', rec.stub('StringIO.write', fn=lambda t, *a, **k: len(t)))
+        me = symexec.self_obj(mm, 'PrintingStringIO', _original_stdout=console)
+        fd = symexec.new_fd(sym, mm, calls={'super': lambda *a: sup,
+                                            'getattr': lambda o, n, *d: o.attrs.get(n, d[0] if d else None)
+                                            if isinstance(o, Obj) else getattr(o, n, *d)},
+                            extra={'UnicodeEncodeError': UnicodeEncodeError, 'UnicodeError': UnicodeError,
+                                   'Exception': Exception, 'ValueError': ValueError})
+        got, raised = symexec.run(fd, fn, [text], bound_self=me, what='PrintingStringIO.write')
+        recorded = [e[1][0] for e in rec.named('StringIO.write')]
+        ok = (raised is not None and not recorded) or (raised is None and recorded == [text])
+        ctx.check(ok, 'R2', 'PrintingStringIO.write[%r,console %s]' % (text, 'accepts' if console_accepts else 'rejects'),
+                  mm, fn, "the student writes %r; write() %s and the text recorded is %r" % (
+                      text, 'raises %s' % raised.kind if raised is not None else 'returns', recorded),
+                  "print('caf\u00e9') with real output allowed on an ascii console: raw_output holds 'caf?'")
+
+
 def r3_append_output_table(ctx, mod):
     ctx.rule('R3', "decision table of append_output (abstract interpretation) over previous raw text x new text: raw "
                    "output is previous + new, the context gets exactly the new text, and the line view grows by the "
@@ -445,6 +482,7 @@ def run(ctx):
     sym = Symbols(ctx.repo)
     r1_single_writer(ctx, mod)
     r2_per_execution(ctx, mod, sym)
+    r2b_echoing_buffer(ctx, mod, sym)
     r3_append_output_table(ctx, mod)
     r4_input_fifo(ctx, mod, sym)
     r5_queue_operations(ctx, mod)
